@@ -3,8 +3,11 @@ package tf
 import (
 	"fmt"
 	"go/ast"
+	"go/token"
 	"go/types"
 	"strings"
+
+	"golang.org/x/tools/go/cfg"
 )
 
 func init() {
@@ -45,122 +48,131 @@ func runTaint(c *Ctx) {
 		if len(vm.Type.Params.List) > 0 && len(vm.Type.Params.List[0].Names) > 0 {
 			mParam = info.Defs[vm.Type.Params.List[0].Names[0]]
 		}
-		covered := map[string]bool{}
-		// every validator call must have its error checked and returned
-		spec := &PassSpec{Vias: []Via{{Call: func(f *FuncInfo, call *ast.CallExpr) (string, bool) {
-			g := p.CalleeInfo(f.Info(), call)
-			if g == nil || len(call.Args) != 1 || (g.Name != "transfer.validateRelPath" && g.Name != "transfer.validateFilename") {
-				return "", false
-			}
-			return "checked:" + types.ExprString(call.Args[0]), true
-		}}}}
-		_ = spec
-		ast.Inspect(vm.Body, func(n ast.Node) bool {
-			is, ok := n.(*ast.IfStmt)
-			if !ok || is.Init == nil {
-				return true
-			}
-			as, ok := is.Init.(*ast.AssignStmt)
-			if !ok || len(as.Rhs) != 1 {
-				return true
-			}
-			call, ok := ast.Unparen(as.Rhs[0]).(*ast.CallExpr)
-			if !ok || len(call.Args) != 1 {
-				return true
-			}
-			g := p.CalleeInfo(info, call)
-			if g == nil || (g.Name != "transfer.validateRelPath" && g.Name != "transfer.validateFilename") {
-				return true
-			}
-			// error must lead to a non-nil return
-			returns := false
-			for _, st := range is.Body.List {
-				if ret, ok := st.(*ast.ReturnStmt); ok && len(ret.Results) == 1 && types.ExprString(ret.Results[0]) != "nil" {
-					returns = true
-				}
-			}
-			if !returns || !isErrNilCond(info, is.Cond) {
-				return true
-			}
-			sel, ok := ast.Unparen(call.Args[0]).(*ast.SelectorExpr)
+		// (root) every success return passes validateFilename(m.Root), or the root is "" / "/"
+		rootExpr := func(g *FuncInfo, e ast.Expr) bool {
+			sel, ok := ast.Unparen(e).(*ast.SelectorExpr)
+			return ok && sel.Sel.Name == "Root" && ObjOf(g.Info(), sel.X) == mParam
+		}
+		isConstStr := func(g *FuncInfo, e ast.Expr, want ...string) bool {
+			sv, ok := constString(g.Info(), e)
 			if !ok {
-				return true
+				return false
 			}
-			// the check must run for every value: enclosing conditions may only exempt the empty string / "/" of the same expression
-			argStr := types.ExprString(call.Args[0])
-			unconditional := true
-			ast.Inspect(vm.Body, func(m ast.Node) bool {
-				outer, ok := m.(*ast.IfStmt)
-				if !ok || outer == is || !(outer.Body.Pos() <= is.Pos() && is.End() <= outer.Body.End()) {
+			for _, w := range want {
+				if sv == w {
 					return true
 				}
-				for _, a := range Implied(outer.Cond, true) {
-					be, ok := a.E.(*ast.BinaryExpr)
-					if !ok || be.Op.String() != "!=" || types.ExprString(ast.Unparen(be.X)) != argStr {
-						unconditional = false
+			}
+			return false
+		}
+		var itemObj types.Object
+		var itemLoop *ast.RangeStmt
+		ast.Inspect(vm.Body, func(n ast.Node) bool {
+			if rs, ok := n.(*ast.RangeStmt); ok && rs.Value != nil {
+				if s2, ok := ast.Unparen(rs.X).(*ast.SelectorExpr); ok && s2.Sel.Name == "Items" && ObjOf(info, s2.X) == mParam {
+					itemObj, itemLoop = ObjOf(info, rs.Value), rs
+				}
+			}
+			return true
+		})
+		itemField := func(g *FuncInfo, e ast.Expr, name string) bool {
+			sel, ok := ast.Unparen(e).(*ast.SelectorExpr)
+			return ok && sel.Sel.Name == name && itemObj != nil && ObjOf(g.Info(), sel.X) == itemObj
+		}
+		vspec := &PassSpec{Vias: []Via{
+			{Call: func(g *FuncInfo, call *ast.CallExpr) (string, bool) {
+				callee := p.CalleeInfo(g.Info(), call)
+				if callee == nil || len(call.Args) != 1 {
+					return "", false
+				}
+				switch {
+				case callee.Name == "transfer.validateFilename" && rootExpr(g, call.Args[0]):
+					return "root-ok", true
+				case callee.Name == "transfer.validateRelPath" && itemField(g, call.Args[0], "RelPath"):
+					return "path-ok", true
+				case callee.Name == "transfer.validateFilename" && itemField(g, call.Args[0], "ID"):
+					return "id-ok", true
+				}
+				return "", false
+			}},
+			{Cond: func(g *FuncInfo, e ast.Expr) (string, bool, bool) {
+				be, ok := ast.Unparen(e).(*ast.BinaryExpr)
+				if !ok {
+					return "", false, false
+				}
+				// whole `m.Root != "" && m.Root != "/"`: false means the root is one of the two harmless values
+				if be.Op == token.LAND {
+					l, okl := ast.Unparen(be.X).(*ast.BinaryExpr)
+					r, okr := ast.Unparen(be.Y).(*ast.BinaryExpr)
+					if okl && okr && l.Op == token.NEQ && r.Op == token.NEQ && rootExpr(g, l.X) && rootExpr(g, r.X) && isConstStr(g, l.Y, "", "/") && isConstStr(g, r.Y, "", "/") {
+						return "root-ok", false, true
+					}
+					return "", false, false
+				}
+				if be.Op != token.EQL && be.Op != token.NEQ {
+					return "", false, false
+				}
+				switch {
+				case rootExpr(g, be.X) && isConstStr(g, be.Y, "", "/"):
+					return "root-ok", be.Op == token.EQL, true
+				case itemField(g, be.X, "ID") && isConstStr(g, be.Y, ""):
+					return "id-ok", be.Op == token.EQL, true // no id: nothing is named after it
+				}
+				return "", false, false
+			}},
+		}}
+		vcfg := vm.CFG()
+		facts := vspec.Facts(vm)
+		has := func(fs FactSet, id string) bool { return fs != nil && fs["pass:"+id] }
+		nret := 0
+		rootOK := true
+		for _, b := range vcfg.Blocks {
+			ret, ok := IsReturnExit(b)
+			if !ok || len(ret.Results) != 1 || types.ExprString(ret.Results[0]) != "nil" {
+				continue
+			}
+			nret++
+			if !vspec.Passed(vm, NodeRef{b, len(b.Nodes) - 1}, "root-ok") {
+				rootOK = false
+			}
+		}
+		c.Check(rootOK && nret > 0, "source/validateManifest/root", vm.Pos(), "every success return passes validateFilename(m.Root) unless the root is \"\" or \"/\"",
+			"validateManifest can return nil without validateFilename having accepted the manifest root (only \"\" and \"/\" are exempt): the base directory (out + root) and the sidecar fallback directory can leave the output directory")
+		// (items) every iteration of the loop over m.Items ends with the path and the id validated
+		pathOK, idOK, iters := itemLoop != nil, itemLoop != nil, 0
+		if itemLoop != nil && facts != nil {
+			var head *cfg.Block
+			for _, b := range vcfg.Blocks {
+				if b.Stmt == ast.Node(itemLoop) && b.Kind == cfg.KindRangeLoop {
+					head = b
+				}
+			}
+			if head == nil {
+				pathOK, idOK = false, false
+			} else {
+				for _, pb := range vcfg.Preds(head) {
+					if !pb.Live || !vcfg.BlockDominates(head, pb) {
 						continue
 					}
-					if sv, isC := constString(info, be.Y); !isC || (sv != "" && sv != "/") {
-						unconditional = false
+					iters++
+					out := facts.AtEnd(pb)
+					if !has(out, "path-ok") {
+						pathOK = false
+					}
+					if !has(out, "id-ok") {
+						idOK = false
 					}
 				}
-				if len(Implied(outer.Cond, true)) == 0 {
-					unconditional = false
-				}
-				return true
-			})
-			if !unconditional {
-				return true
-			}
-			// m.Root or item.<F> where item ranges over m.Items
-			if ObjOf(info, sel.X) == mParam && sel.Sel.Name == "Root" {
-				// the guard around it may only exempt values that are harmless: "" and "/"
-				covered["Root:"+strings.TrimPrefix(g.Name, "transfer.")] = true
-			}
-			if o := ObjOf(info, sel.X); o != nil && o != mParam {
-				isItem := false
-				ast.Inspect(vm.Body, func(m ast.Node) bool {
-					if rs, ok := m.(*ast.RangeStmt); ok && rs.Value != nil && ObjOf(info, rs.Value) == o {
-						if s2, ok := ast.Unparen(rs.X).(*ast.SelectorExpr); ok && s2.Sel.Name == "Items" && ObjOf(info, s2.X) == mParam {
-							isItem = true
-						}
-					}
-					return true
-				})
-				if isItem {
-					covered[sel.Sel.Name+":"+strings.TrimPrefix(g.Name, "transfer.")] = true
+				if iters == 0 {
+					pathOK, idOK = false, false
 				}
 			}
-			return true
-		})
-		c.Check(covered["Root:validateFilename"], "source/validateManifest/root", vm.Pos(), "the manifest root must be a plain name", "validateManifest does not check the manifest root with validateFilename: the base directory (out + root) and the sidecar fallback directory can leave the output directory")
-		c.Check(covered["RelPath:validateRelPath"], "source/validateManifest/item-path", vm.Pos(), "every item's relative path (files and directories) passes validateRelPath", "validateManifest does not check every item's RelPath: directory items are created with MkdirAll straight from the manifest")
-		c.Check(covered["ID:validateFilename"], "source/validateManifest/item-id", vm.Pos(), "every item id must be a plain name", "validateManifest does not check item ids with validateFilename: the id names the resume metadata file (out/.thruflux_resumedata/<id>.sbxmap) and can carry path separators")
-		// exemptions of the root check: only "" and "/"
-		okEx := true
-		ast.Inspect(vm.Body, func(n ast.Node) bool {
-			is, ok := n.(*ast.IfStmt)
-			if !ok || is.Init != nil {
-				return true
-			}
-			mentionsRoot := strings.Contains(types.ExprString(is.Cond), ".Root")
-			if !mentionsRoot {
-				return true
-			}
-			for _, a := range Implied(is.Cond, true) {
-				be, ok := a.E.(*ast.BinaryExpr)
-				if !ok {
-					okEx = false
-					continue
-				}
-				s, isConst := constString(info, be.Y)
-				if !isConst || (s != "" && s != "/") || be.Op.String() != "!=" {
-					okEx = false
-				}
-			}
-			return true
-		})
-		c.Check(okEx, "source/validateManifest/root-exemptions", vm.Pos(), "only the empty root and \"/\" are exempt from the plain-name test", "validateManifest exempts manifest roots other than \"\" and \"/\" from validation")
+		}
+		c.Check(pathOK, "source/validateManifest/item-path", vm.Pos(), "every iteration over m.Items ends with validateRelPath(item.RelPath) passed (files and directories)",
+			"validateManifest does not check every item's RelPath on every path through its loop: directory items are created with MkdirAll straight from the manifest")
+		c.Check(idOK, "source/validateManifest/item-id", vm.Pos(), "every iteration over m.Items ends with validateFilename(item.ID) passed, or the id empty",
+			"validateManifest lets an item through its loop without validateFilename(item.ID) having passed (only an empty id is exempt - not directories, not empty files: a sidecar path is built and removed for every file item): the id names the resume metadata file (out/.thruflux_resumedata/<id>.sbxmap) and can carry path separators")
+		c.Stat("validateManifest_loop_exits", iters)
 	}
 	// ---- T1: decoders return only validated records
 	if rh := p.Func("transfer.readControlHeader"); rh != nil {
